@@ -82,6 +82,12 @@ Definition stub_pick_search (lo hi : list Q) (a : search_af) : point :=
   map (fun t => fst (snd t) + (snd (snd t) - fst (snd t)) * ((fst t + 1) / 2))
       (combine (last (repulsors a) (repeat 0 (length lo))) (combine lo hi)).
 
+(* the Parzen constant liar's optimiser: half the last point of the greater set, shifted by a quarter of the number of greater
+   points and an eighth of the number of lower points (dyadic, so exact in double arithmetic) *)
+Definition stub_pick_pz (s : pz) : point :=
+  let k := inject_Z (Z.of_nat (length (p_greater s))) / 4 + inject_Z (Z.of_nat (length (p_lower s))) / 8 in
+  map (fun x => x / 2 + k) (last (p_greater s) []).
+
 Definition sum_view (s : gpsum) : hist :=
   mkHist (match s_comps s with g :: _ => h_dim (g_hist g) | [] => O end)
          (match s_comps s with g :: _ => h_pts (g_hist g) | [] => [] end) (fresh_vals s) (fresh_noise s).
@@ -103,6 +109,13 @@ Inductive case :=
 | CFeedGp (qei multitask objective : bool) (h : hist) (pending : list point) (lie : Q) (observed : hist)
           (pending_set : list point) (used_qei : bool)
 | CFeedPz (before : pz) (pending : list point) (after : pz)
+(* SPENextPoints.suggest_next_points_constant_liar on a real estimator that already holds lies (init), the multistart optimiser
+   replaced by the recording stub: the picks returned, the estimator state each optimisation saw, the state left to the caller *)
+| CPzCL (init : pz) (n : nat) (picks : list point) (seen : list pz) (final : pz)
+(* the real Parzen endpoint from the formed estimator on (real create_spe_suggestions / draw_samples / constant liar, one batch of
+   the rejection sampler): pick = what the multistart optimiser returned, seen = the estimator it ran against, evals = the estimator
+   at every expected-improvement evaluation after the pick, after = the estimator when draw_samples returns *)
+| CSpeSampling (formed : pz) (pending : list point) (pick : point) (seen after : pz) (evals : list pz)
 | CFeedSearch (lo hi : list Q) (sampled pending : list point) (observed : list point).
 
 Definition mk_sum (comps : list hist) (weights : list Q) : gpsum :=
@@ -148,6 +161,16 @@ Definition check (c : case) : bool :=
         end
   | CFeedPz before pending after =>
       match feed_parzen before pending with (s, None) => pz_eqb s after | _ => false end
+  | CPzCL init n picks seen final =>
+      let '(ps, ss, fin) := pz_constant_liar stub_pick_pz n init in
+      pts_eqb ps picks && list_eqb pz_eqb ss seen && pz_eqb fin final &&
+      pz_eqb init final                                  (* the clause itself, on the implementation's output: restored *)
+  | CSpeSampling formed pending pick seen after evals =>
+      match spe_sampling (fun _ => pick) formed pending with
+      | inl (p, s1, s2) => vec_eqb p pick && pz_eqb s1 seen && pz_eqb s2 after && forallb (pz_eqb s2) evals &&
+                           pts_eqb (p_greater_lies after) (p_greater_lies formed ++ pending)   (* pending points still lies *)
+      | inr _ => false
+      end
   | CFeedSearch lo hi sampled pending observed =>
       pts_eqb (repulsors (feed_search (unit_cube lo hi) sampled pending 0)) observed
   end.
